@@ -148,7 +148,7 @@ _S2R_TXT = (" In addition n evaluations of the replication sweep (scenario C10S2
             "the end; distinct = different hash of the plan.")
 def _s2r(runs, budget):
     return {"scenario": "C10S2", "profile": "C10S2", "quick_runs": runs, "quick_budget_s": budget, "thorough_runs": 400000, "thorough_budget_s": 600}
-for _p, _r, _b in (("C10", 900, 30), ("C04", 400, 15), ("C11", 400, 15), ("C12", 300, 12), ("C03", 300, 12), ("C02", 300, 12), ("C07", 400, 15)):
+for _p, _r, _b in (("C10", 900, 30), ("C04", 400, 15), ("C11", 400, 15), ("C12", 300, 12), ("C03", 300, 12), ("C02", 300, 12), ("C07", 400, 15), ("C05", 400, 15)):
     PROFILES[_p]["scenarios"] = PROFILES[_p]["scenarios"] + [_s2r(_r, _b)]
     PROFILES[_p]["rule"] = PROFILES[_p].get("rule", DEFAULT_RULE) + _S2R_TXT
 PROFILES["C10"]["level"] = "fault_enumeration"
